@@ -6,12 +6,17 @@
 -/
 import Driver.Util
 import Driver.C20
+import Driver.Dur
+import Driver.Gen
 
 open Drv
 
 def dispatch (op : String) : Option (P Verdict) :=
   match op with
   | "cond" => some Drv.C20.run
+  | "gen" => some Drv.Gen.run
+  | "dur" => some Drv.Dur.runDur
+  | "align" => some Drv.Dur.runAlign
   | _ => none
 
 def runLine (idx : Nat) (line : String) : String :=
